@@ -19,6 +19,9 @@ func scratchDir(tag string) (string, func()) {
 	}
 	d := filepath.Join(base, fmt.Sprintf("idl-%s-%d-%d", tag, os.Getpid(), atomic.AddUint64(&tmpSeq, 1)))
 	os.MkdirAll(d, 0o755)
+	if os.Getenv("VERIF_KEEP_SCRATCH") != "" {
+		return d, func() {}
+	}
 	return d, func() { os.RemoveAll(d) }
 }
 
